@@ -189,8 +189,16 @@ def replay(pid, payload):
     """Re-runs one saved scenario and returns the violations of pid it exposes."""
     wd = common.scratch()
     try:
-        kw = dict(spec="TopoTrace", cfgfile="TopoTrace.cfg") if any(x["op"] in ("topo", "refresh") for x in _stims(payload["scenario"])) else {}
+        ops = {x["op"] for x in _stims(payload["scenario"])}
+        kw = dict(spec="TopoTrace", cfgfile="TopoTrace.cfg") if ops & {"topo", "refresh"} else \
+            dict(spec="RawTrace", cfgfile="RawTrace.cfg") if ops & {"npause", "nreadsome"} else {}
         r = common.replay_and_validate(payload["cfg"], [payload["scenario"]], wd, "replay", par=1, **kw)
-        return [v for v in r["viol"] if v["prop"] in (pid, "DEAD")]
+        out = []
+        for v in r["viol"]:
+            if ops & {"npause"} and (v["code"].startswith("request-") or v["code"] == "malformed-request-forwarded"):
+                v = dict(v, prop="C10")
+            if v["prop"] in (pid, "DEAD"):
+                out.append(v)
+        return out
     finally:
         shutil.rmtree(wd, ignore_errors=True)
